@@ -475,6 +475,8 @@ class Reader:
     def member_of_value(self, b, e):
         if isinstance(b, dict) and e['name'] in b:
             return b[e['name']]
+        if isinstance(b, sp.Symbol) and b.name.startswith('global:') and e.get('field'):
+            return self.symbol(b.name + '.' + e['name'], e['t'])      # member of a namespace-scope / static object
         return Opaque(pp(e))
 
     def cast(self, v, e):
